@@ -22,7 +22,9 @@
 
    [variant]: [New] is collections.py as it is now
    (`self._data = dict(data)`), [Old] is the code before the fix
-   (`self._data = data`), kept as a mutant for C11_no_alias_refuted_old. *)
+   (`self._data = data`), kept as a mutant for C11_no_alias_refuted_old;
+   [PopInPlace] is the current __init__ with a mutant copy_pop that pops from
+   a new ImmutableDict SHARING the receiver's _data (C11_copy_pop_refuted_inplace). *)
 From Coq Require Import List NArith Bool Arith.
 From SWH.lib Require Import Bytes Order StableSort.
 From SWH Require Import Generated.
@@ -304,7 +306,7 @@ Definition as_kv (s : store) (v : pyval) : option (atom * pyval) :=
   | _ => None
   end.
 
-Inductive variant := New | Old.
+Inductive variant := New | Old | PopInPlace.
 
 (* ImmutableDict.__init__, `else` branch: {k: v for k, v in data} *)
 Definition idict_of_seq (s : store) (l : list pyval) : result (pyval * store) :=
@@ -321,13 +323,42 @@ Definition idict_init (var : variant) (s : store) (v : pyval) : result (pyval * 
       match lookup s h with
       | Some (PyDict it) =>
           match var with
-          | New => let (h', s') := alloc s (PyDict it) in Ok (VIDict h', s')   (* dict(data) *)
           | Old => Ok (VIDict h, s)                                            (* data itself *)
+          | _ => let (h', s') := alloc s (PyDict it) in Ok (VIDict h', s')     (* dict(data) *)
           end
       | Some (PyList l) => idict_of_seq s l
       | None => Err ETypeError
       end
   | VTuple l => idict_of_seq s l
+  | _ => Err ETypeError
+  end.
+
+(* ImmutableDict.copy_pop(key) -> (popped value or None, new ImmutableDict).
+   Current code: new_items = copy.deepcopy(self._data); pop; ImmutableDict(new_items)
+   - a fresh cell, the receiver untouched.
+   Mutant PopInPlace: new = ImmutableDict(self) (which SHARES _data); new._data.pop(key)
+   - a write to the receiver's own cell. *)
+Definition popped {A} (k : atom) (it : list (atom * A)) (dflt : A) : A :=
+  match assoc k it with Some x => x | None => dflt end.
+
+Definition copy_pop (var : variant) (f : nat) (s : store) (v : pyval) (k : atom)
+  : result (pyval * pyval * store) :=
+  match v with
+  | VIDict h =>
+      match lookup s h with
+      | Some (PyDict it) =>
+          match var with
+          | PopInPlace => Ok (popped k it VNone, VIDict h, update s h (PyDict (dict_del k it)))
+          | _ =>
+              match deepcopy f s (VIDict h) with
+              | Some (VOMap _ kvs) =>
+                  let (h', s') := alloc s (PyDict (dict_del k kvs)) in
+                  Ok (popped k kvs VNone, VIDict h', s')
+              | _ => Err EOutOfFuel
+              end
+          end
+      | _ => Err ETypeError
+      end
   | _ => Err ETypeError
   end.
 
@@ -633,7 +664,7 @@ Section WithHash.
   Definition K_XH : bytes := bs "extra_headers".
   Definition XH_KEY : atom := (2%N :: bs "extra_headers").   (* the str "extra_headers" (tag 2 = str) *)
 
-  Definition post_revision (f : nat) (cls : bytes) (rows : list field_row) (vals : list pyval)
+  Definition post_revision (var : variant) (f : nat) (cls : bytes) (rows : list field_row) (vals : list pyval)
              (s : store) : result (list pyval * store) :=
     if negb (beqb cls (bs "Revision")) then Ok (vals, s) else
     match get_field K_META rows vals, get_field K_XH rows vals with
@@ -642,18 +673,17 @@ Section WithHash.
         | Some (PyDict it) =>
             match assoc XH_KEY it with
             | None => Ok (vals, s)
-            | Some xh =>
-                match deepcopy f s (VIDict hm), deepcopy f s xh with
-                | Some (VOMap _ kvs), Some xh' =>
-                    match tuplify s xh' with
+            | Some _ =>
+                match copy_pop var f s (VIDict hm) XH_KEY with
+                | Ok (xh', md, s') =>
+                    match tuplify s' xh' with
                     | Ok t =>
                         if atom_pairs t then
-                          let (h', s') := alloc s (PyDict (dict_del XH_KEY kvs)) in
-                          Ok (set_field K_XH t rows (set_field K_META (VIDict h') rows vals), s')
+                          Ok (set_field K_XH t rows (set_field K_META md rows vals), s')
                         else Err ETypeError
                     | Err e => Err e
                     end
-                | _, _ => Err EOutOfFuel
+                | Err e => Err e
                 end
             end
         | _ => Ok (vals, s)
@@ -674,7 +704,7 @@ Section WithHash.
           match conv_fields var f rt cls rows args s with
           | Err e => Err e
           | Ok (vals, s1) =>
-              match post_revision f cls rows (post_id f cls rows vals s1) s1 with
+              match post_revision var f cls rows (post_id f cls rows vals s1) s1 with
               | Err e => Err e
               | Ok (vals', s2) => Ok (VObj cls vals', s2)
               end
@@ -818,32 +848,43 @@ Definition arg_handles (args : list pyval) : list handle :=
 (* ------------------------------------------------------------------ *)
 (* A scripted run, for the correspondence check: build, observe, then after
    each caller mutation / each attempt on the object observe again. *)
-Inductive step := SMut (m : mut) | SChan (c : channel).
+Inductive step := SMut (m : mut) | SChan (c : channel) | SCopyPop (k : atom).
 
 Section Script.
   Variable Hid : rval -> atom.
   Variable Hpy : rval -> N.
 
-  Fixpoint run_steps (f : nat) (s : store) (o : pyval) (steps : list step)
-    : list (option err * observation) :=
+  Fixpoint run_steps (var : variant) (f : nat) (s : store) (o : pyval) (steps : list step)
+    : list (option err * observation) * store :=
     match steps with
-    | [] => []
-    | SMut m :: r => let s' := apply_mut s m in (None, observe Hid Hpy f s' o) :: run_steps f s' o r
+    | [] => ([], s)
+    | SMut m :: r =>
+        let s' := apply_mut s m in
+        let (l, sf) := run_steps var f s' o r in ((None, observe Hid Hpy f s' o) :: l, sf)
     | SChan c :: r =>
         let '(e, s', o') := obj_mutate s o c in
-        (Some e, observe Hid Hpy f s' o') :: run_steps f s' o' r
+        let (l, sf) := run_steps var f s' o' r in ((Some e, observe Hid Hpy f s' o') :: l, sf)
+    | SCopyPop k :: r =>            (* o.copy_pop(k), result dropped; the receiver is observed again *)
+        match copy_pop var f s o k with
+        | Ok (_, _, s') => let (l, sf) := run_steps var f s' o r in ((None, observe Hid Hpy f s' o) :: l, sf)
+        | Err e => let (l, sf) := run_steps var f s o r in ((Some e, observe Hid Hpy f s o) :: l, sf)
+        end
     end.
 
+  (* [watch]: values (the already-frozen arguments) observed before the
+     construction and again after the whole script *)
   Definition run_script (var : variant) (f : nat) (rt : route) (cls : bytes) (s : store)
-             (args : list pyval) (steps : list step)
-    : result (observation * list (option err * observation)) :=
+             (args : list pyval) (steps : list step) (watch : list pyval)
+    : result (observation * list (option err * observation) * list observation * list observation) :=
     match (match rt, args with
            | FromDict, [d] => from_dict Hid var f cls s d
            | FromDict, _ => Err ETypeError
            | Ctor, _ => construct Hid var f Ctor cls s args
            end) with
     | Err e => Err e
-    | Ok (o, s1) => Ok (observe Hid Hpy f s1 o, run_steps f s1 o steps)
+    | Ok (o, s1) =>
+        let (l, sf) := run_steps var f s1 o steps in
+        Ok (observe Hid Hpy f s1 o, l, map (observe Hid Hpy f s) watch, map (observe Hid Hpy f sf) watch)
     end.
 
   (* two objects built one after the other: are they equal, and their hash keys *)
@@ -861,6 +902,33 @@ Section Script.
         end
     end.
 End Script.
+
+(* ------------------------------------------------------------------ *)
+(* Everything a program can do around existing frozen mappings: construct
+   objects (both routes, any arguments, also ImmutableDict(x)), call copy_pop
+   on any ImmutableDict, mutate containers it owns.  An operation that raises
+   leaves the store as it was. *)
+Inductive op :=
+| OConstruct (rt : route) (cls : bytes) (args : list pyval)
+| OFromDict (cls : bytes) (d : pyval)
+| OCopyPop (v : pyval) (k : atom)
+| OMut (m : mut).
+
+Section Ops.
+  Variable Hid : rval -> atom.
+  Definition run_op (var : variant) (f : nat) (s : store) (o : op) : store :=
+    match o with
+    | OConstruct rt cls args => match construct Hid var f rt cls s args with Ok (_, s') => s' | Err _ => s end
+    | OFromDict cls d => match from_dict Hid var f cls s d with Ok (_, s') => s' | Err _ => s end
+    | OCopyPop v k => match copy_pop var f s v k with Ok (_, _, s') => s' | Err _ => s end
+    | OMut m => apply_mut s m
+    end.
+  Definition run_ops (var : variant) (f : nat) (s : store) (ops : list op) : store :=
+    fold_left (run_op var f) ops s.
+End Ops.
+
+Definition op_mut_targets (ops : list op) : list handle :=
+  flat_map (fun o => match o with OMut m => [mut_target m] | _ => [] end) ops.
 
 (* ------------------------------------------------------------------ *)
 (* Examples (vm_compute) *)
@@ -883,8 +951,8 @@ Definition ex_args : list pyval := [VRef 0%nat; VAtom EMPTY_BYTES].
 Definition ex_muts : list step := [SMut (MSetItem 0%nat (Ak "k2") (A "v2"))].
 
 Example ex_new_unchanged :
-  match run_script ex_Hid ex_Hpy New 5%nat Ctor (bs "Snapshot") ex_store ex_args ex_muts with
-  | Ok (o0, [(None, o1)]) =>
+  match run_script ex_Hid ex_Hpy New 5%nat Ctor (bs "Snapshot") ex_store ex_args ex_muts [] with
+  | Ok (o0, [(None, o1)], _, _) =>
       match o0, o1 with (r0, _, _, _, ok0), (r1, _, _, _, ok1) =>
         (r0, ok0, r1, ok1) =
         (RObj (bs "Snapshot") [RMap false [(Ak "k1", RAtom (Ak "v1"))]; RAtom [1%N; 1%N]], true,
@@ -895,8 +963,8 @@ Example ex_new_unchanged :
 Proof. vm_compute. reflexivity. Qed.
 
 Example ex_old_changed :
-  match run_script ex_Hid ex_Hpy Old 5%nat Ctor (bs "Snapshot") ex_store ex_args ex_muts with
-  | Ok (o0, [(None, o1)]) =>
+  match run_script ex_Hid ex_Hpy Old 5%nat Ctor (bs "Snapshot") ex_store ex_args ex_muts [] with
+  | Ok (o0, [(None, o1)], _, _) =>
       match o0, o1 with (r0, _, _, _, ok0), (r1, _, _, _, ok1) =>
         (r0, ok0, r1, ok1) =
         (RObj (bs "Snapshot") [RMap false [(Ak "k1", RAtom (Ak "v1"))]; RAtom [1%N; 1%N]], true,
